@@ -91,6 +91,7 @@ structure Cfg where
   eps : Int             -- EPSILON_EXPIRE_TS
   guest : Bytes         -- GUEST
   refreshType : Bytes   -- REFRESH_JWT_CLAIM_TYPE
+  deriving DecidableEq, Repr
 
 /-- the configuration read from the source by the translator -/
 def srcCfg : Cfg where
@@ -107,6 +108,79 @@ def srcCfg : Cfg where
   eps := Gen.Token.epsilonExpireTS
   guest := Gen.Token.guest
   refreshType := Gen.Token.refreshClaimType
+
+/-! ### api/config.go: what `InitConfig()` makes of the variables
+
+`config()` is a sequence of `X = setYConfig("KEY", DEFAULT)`; `configutil.SetYConfig` returns the value of the ini
+file's `[go-pttbbs:api]` entry `key` (viper: case-insensitive) when it is set and `DEFAULT` otherwise.  `DEFAULT` is
+an expression evaluated when the line runs — i.e. AFTER the lines before it: the model is an interpreter over the
+lines the translator read (`Gen.Token.configLines`), variables are bytes (an int is its decimal digits;
+`viper.GetInt` of something that is not a number is 0). -/
+
+abbrev Env := List (String × Bytes)
+
+def lookupVar (env : Env) (name : String) : Option Bytes := (env.find? (·.1 == name)).map (·.2)
+
+def setVar : Env → String → Bytes → Env
+  | [], n, v => [(n, v)]
+  | (m, w) :: rest, n, v => if m == n then (m, v) :: rest else (m, w) :: setVar rest n v
+
+/-- `none`: a default expression that is not one of the package variables (the interpreter does not know it) -/
+def runConfig (ini : Env) : List (String × String × String × String × String) → Env → Option Env
+  | [], env => some env
+  | (var, _, _, keyLower, dflt) :: rest, env =>
+    match lookupVar ini keyLower with
+    | some v => runConfig ini rest (setVar env var v)
+    | none =>
+      match lookupVar env dflt with
+      | some v => runConfig ini rest (setVar env var v)
+      | none => none
+
+/-- the variables after `InitConfig()` with the given `[go-pttbbs:api]` entries -/
+def effEnv (ini : Env) : Option Env := runConfig ini Gen.Token.configLines Gen.Token.initialVars
+
+def decDigits : List Nat → Nat → Option Nat
+  | [], acc => some acc
+  | d :: rest, acc => if 48 ≤ d ∧ d ≤ 57 then decDigits rest (acc * 10 + (d - 48)) else none
+
+/-- `viper.GetInt` / the initial value of an int variable -/
+def decToInt (bs : Bytes) : Int :=
+  match bs with
+  | 45 :: rest => if rest.isEmpty then 0 else match decDigits rest 0 with | some n => -(n : Int) | none => 0
+  | [] => 0
+  | _ => match decDigits bs 0 with | some n => (n : Int) | none => 0
+
+/-- the configuration the functions see, by the variable NAMES the translator found in them -/
+def cfgOfEnv (env : Env) : Option Cfg := do
+  let vA ← lookupVar env Gen.Token.verifyAccessKeyName
+  let vR ← lookupVar env Gen.Token.verifyRefreshKeyName
+  let vE ← lookupVar env Gen.Token.verifyEmailKeyName
+  let sA ← lookupVar env Gen.Token.createAccessKeyName
+  let sR ← lookupVar env Gen.Token.createRefreshKeyName
+  let sE ← lookupVar env Gen.Token.createEmailKeyName
+  let tA ← lookupVar env Gen.Token.createAccessTTLName
+  let tR ← lookupVar env Gen.Token.createRefreshTTLName
+  let tE ← lookupVar env Gen.Token.createEmailTTLName
+  let pm ← lookupVar env Gen.Token.pairDiffMinuendName
+  let ps ← lookupVar env Gen.Token.pairDiffSubtrahendName
+  let g ← lookupVar env "GUEST"
+  let ty ← lookupVar env "REFRESH_JWT_CLAIM_TYPE"
+  pure { vAccess := vA, vRefresh := vR, vEmail := vE, sAccess := sA, sRefresh := sR, sEmail := sE,
+         ttlAccess := decToInt tA, ttlRefresh := decToInt tR, ttlEmail := decToInt tE,
+         pairDiff := decToInt pm - decToInt ps, eps := Gen.Token.epsilonExpireTS, guest := g, refreshType := ty }
+
+/-- the configuration after `InitConfig()` with the given ini entries -/
+def effCfg (ini : Env) : Option Cfg := (effEnv ini).bind cfgOfEnv
+
+/-- the three secret variables after `InitConfig()` -/
+def effSecrets (ini : Env) : Option (Bytes × Bytes × Bytes) := do
+  let env ← effEnv ini
+  let a ← lookupVar env "JWT_SECRET"
+  let r ← lookupVar env "REFRESH_JWT_SECRET"
+  let e ← lookupVar env "EMAIL_JWT_SECRET"
+  pure (a, r, e)
+
+def pairwiseDistinct (s : Bytes × Bytes × Bytes) : Bool := s.1 != s.2.1 && s.1 != s.2.2 && s.2.1 != s.2.2
 
 /-! ### the library, on top of the oracle -/
 
